@@ -47,6 +47,7 @@ type Engine struct {
 	nativeExterns map[string]func(fr *frame, args []SV, cur *State, rtyp types.Type) SV
 	ghostSafeList []string
 	invariants    map[string]*Invariant
+	baseFuncs     []string
 	mu            sync.Mutex
 }
 
@@ -160,9 +161,35 @@ func (e *Engine) lookupType(q string) types.Type {
 // ---------------------------------------------------------------- prelude
 
 func (e *Engine) loadPrelude() error {
+	// functions of the built-in base prelude
+	if sxs, err := parseSx(basePrelude); err == nil {
+		for _, sx := range sxs {
+			if !sx.IsList || len(sx.List) < 4 {
+				continue
+			}
+			switch sx.List[0].Atom {
+			case "declare-fun":
+				pf := &preludeFunc{Name: sx.List[1].Atom, Ret: sx.List[3].String()}
+				for _, a := range sx.List[2].List {
+					pf.Args = append(pf.Args, a.String())
+				}
+				e.preludeFuncs[pf.Name] = pf
+			case "define-fun":
+				pf := &preludeFunc{Name: sx.List[1].Atom, Ret: sx.List[3].String()}
+				for _, a := range sx.List[2].List {
+					pf.Args = append(pf.Args, a.List[1].String())
+				}
+				e.preludeFuncs[pf.Name] = pf
+			}
+		}
+	}
 	files, _ := filepath.Glob(filepath.Join(e.specDir, "prelude", "*.smt2"))
 	sort.Strings(files)
 	known := map[string]bool{}
+	for name := range e.preludeFuncs {
+		known[name] = true // base prelude functions count for axiom selection
+		e.baseFuncs = append(e.baseFuncs, name)
+	}
 	var all []*preludeItem
 	for _, f := range files {
 		data, err := os.ReadFile(f)
